@@ -1,3 +1,5 @@
+use std::collections::HashSet;
+
 use ecow::EcoString;
 use id_arena::Id;
 use indexmap::IndexMap;
@@ -60,6 +62,18 @@ impl Record {
     }
 
     pub fn find_field(&self, symbol_map: &SymbolMap, name: &EcoString) -> Option<RecordFieldId> {
+        self.find_field_unvisited(symbol_map, name, &mut HashSet::new())
+    }
+
+    // Every ancestor is looked at once, in depth-first order: a class reached again along another
+    // path (a diamond) cannot answer differently, and following every path of a class lattice
+    // takes time exponential in its depth.
+    fn find_field_unvisited(
+        &self,
+        symbol_map: &SymbolMap,
+        name: &EcoString,
+        visited: &mut HashSet<RecordId>,
+    ) -> Option<RecordFieldId> {
         #[cfg(feature = "verif")]
         crate::verif::walk_step();
         if let Some(field_id) = self.name_to_record_field.get(name) {
@@ -67,8 +81,11 @@ impl Record {
         }
 
         for parent_id in &self.parent_list {
+            if !visited.insert(*parent_id) {
+                continue;
+            }
             let parent = symbol_map.record(*parent_id);
-            if let Some(field_id) = parent.find_field(symbol_map, name) {
+            if let Some(field_id) = parent.find_field_unvisited(symbol_map, name, visited) {
                 return Some(field_id);
             }
         }
@@ -81,6 +98,15 @@ impl Record {
     }
 
     pub fn is_subclass_of(&self, symbol_map: &SymbolMap, other_id: RecordId) -> bool {
+        self.is_subclass_of_unvisited(symbol_map, other_id, &mut HashSet::new())
+    }
+
+    fn is_subclass_of_unvisited(
+        &self,
+        symbol_map: &SymbolMap,
+        other_id: RecordId,
+        visited: &mut HashSet<RecordId>,
+    ) -> bool {
         #[cfg(feature = "verif")]
         crate::verif::walk_step();
         if self.parent_list.contains(&other_id) {
@@ -88,8 +114,11 @@ impl Record {
         }
 
         for parent_id in &self.parent_list {
+            if !visited.insert(*parent_id) {
+                continue;
+            }
             let parent = symbol_map.record(*parent_id);
-            if parent.is_subclass_of(symbol_map, other_id) {
+            if parent.is_subclass_of_unvisited(symbol_map, other_id, visited) {
                 return true;
             }
         }
